@@ -253,11 +253,22 @@ func runPermits(o *Out, r *rand.Rand, thorough bool, _ []string) {
 
 	// (3a) offers that cannot be sent at all: more keys than an OFFER may carry, a key longer than a key may be - the slot
 	// comes back although no peer was ever asked
-	for _, kind := range []string{"too_many_keys", "key_too_long", "no_keys"} {
+	for _, kind := range []string{"too_many_keys", "key_too_long", "no_keys", "no_common_version", "empty_version_list", "malformed_version_entry"} {
 		target := signRecPad(keyFromSeed(r), net.IP{34, 8, 10, byte(1 + len(kind))}, 7150, 1, 0)
-		a.p.VerifVersionsCacheSet(target, 1)
+		switch kind {
+		case "no_common_version": // first contact with a peer that shares no version with us: nothing is in the version cache
+			target = signRecPv(keyFromSeed(r), net.IP{34, 8, 10, 77}, 7150, 1, []uint8{3})
+		case "empty_version_list":
+			target = signRecPv(keyFromSeed(r), net.IP{34, 8, 10, 78}, 7150, 1, []uint8{})
+		case "malformed_version_entry":
+			target = peerNode(r, nil, badPv{1, 2})
+		default:
+			a.p.VerifVersionsCacheSet(target, 1)
+		}
 		var req *portalwire.OfferRequest
 		switch kind {
+		case "no_common_version", "empty_version_list", "malformed_version_entry":
+			req = mkReq(2)
 		case "too_many_keys":
 			req = mkReq(65 + r.Intn(3))
 		case "key_too_long":
